@@ -285,6 +285,8 @@ class Prober:
         if act == 'describe' and ev['cls'] == 'ok':
             part = self.desc['modules'].get(mod, {})
             part = part.get('accessibles', {}).get(name) if name else part
+            if not mod:
+                part = self.desc          # the whole report: stable after any history
             ev['same'] = json.dumps(rep[2], sort_keys=True, default=repr) == json.dumps(part, sort_keys=True)
         ev['text'] = str(rep[2][1])[:100] if rep[0].startswith('error_') else ''
         ev['value'] = None
@@ -295,6 +297,11 @@ class Prober:
             ev['imp'] = self._importable(key, val)
             ev['strictjson'] = strict_json(rep[2])
             self.seen[key] = val
+        self._collect_updates(ev)
+        self.events.append(ev)
+        return ev
+
+    def _collect_updates(self, ev):
         upd = []
         for msg in self.conn.msgs:
             um, _, un = msg[1].partition(':')
@@ -307,8 +314,39 @@ class Prober:
                         'imp': self._importable((um, un), msg[2][0]) and strict_json(msg[2])})
             self.seen[um, un] = msg[2][0]
         ev['upd'] = upd
+
+    def internal(self, kind, obj, mod, attr, wire, value=None):
+        """a history step that is no request: kind 'poll' = what the poller does (obj.read_<attr>()),
+        'assign' = a driver-side assignment (obj.<attr> = value); the updates it announces are recorded"""
+        del self.conn.msgs[:]
+        ev = {'req': {'act': kind, 'mod': mod, 'name': wire or attr, 'payload': None}, 'prev': None, 'strict': False,
+              'same': True, 'real_ok': True, 'cls': 'ok', 'text': '', 'value': None, 'imp': True}
+        try:
+            if kind == 'poll':
+                getattr(obj, 'read_' + attr)()
+            else:
+                setattr(obj, attr, value)
+        except Exception as e:
+            ev['cls'], ev['text'] = type(e).__name__, str(e)[:100]
+        self._collect_updates(ev)
         self.events.append(ev)
         return ev
+
+    def history(self, objs, consts=()):
+        """describe again after reads / changes, then polls and driver assignments, then describe and read again"""
+        self.request('describe', '', '', None)
+        for m, obj in objs.items():
+            for attr, pobj in obj.parameters.items():
+                if getattr(type(obj), 'read_' + attr, None) is not None and getattr(getattr(obj, 'read_' + attr), 'poll', False):
+                    self.internal('poll', obj, m, attr, pobj.export)
+        for m, attr, value in consts:       # driver-side assignment to parameters that are constants
+            self.internal('assign', objs[m], m, attr, objs[m].parameters[attr].export, value)
+        self.request('describe', '', '', None)
+        for m, obj in objs.items():
+            for attr, pobj in obj.parameters.items():
+                if pobj.export and pobj.constant is not None:
+                    self.request('read', m, pobj.export, None)
+                    self.request('activate', m, pobj.export, None)
 
     def trace(self, expect, expdesc=None, rank=False):
         """encode: first record = projected description, then the events"""
@@ -397,6 +435,13 @@ def _undescribed_names(shape):
     return res
 
 
+def _const_assignments(shape):
+    """(module, attribute, value): a driver-side assignment of another valid value to every constant"""
+    return [(m, a, dc.internal(x['dt'], x['ret'] if x['ret'] != NULL else x['init']))
+            for m, accs in shape.items() for a, x in accs.items()
+            if x['kind'] == 'param' and x['const'] != NULL and not x.get('feature')]
+
+
 def _run_node(node):
     dc.boot()
     shape = node['shape']
@@ -414,6 +459,7 @@ def _run_node(node):
     reqs = sorted(node['probes'], key=lambda r: json.dumps(r, sort_keys=True))
     for r in reqs:
         p.request(r['act'], r['mod'], r['name'], dc.conc(r['payload']), _strict(shape, r['mod'], r['name']))
+    p.history(w.mods, _const_assignments(shape))
     expect = _expect_of(shape, bases)
     for m in expect:        # what TLC printed for this class hierarchy
         expect[m]['features'] = node['expfeatures']
@@ -507,6 +553,7 @@ def _random_node_(seed):
                     and all(isinstance(x, (int, float)) for x in pay):
                 pay.sort()
         p.request(act, m, n, pay, _strict(shape, m, n))
+    p.history(w.mods, _const_assignments(shape))
     expect = _expect_of(shape, bases, feats)
     for m, accs in shape.items():
         if bases.get(m, 'Module') != 'Module':
@@ -690,6 +737,7 @@ def _shipped(cfg):
         for act in ('read', 'change', 'do', 'activate'):
             p.request(act, m, 'value', 1 if act == 'change' else None)
         p.request('activate', m, '', None)
+    p.request('describe', '', '', None)          # after all these reads and changes: the same report
     signal.alarm(0)
     hidden = [[m, w] for m, obj in sec.modules.items() for w, a in obj.accessiblename2attr.items()
               if not obj.accessibles[a].export]
@@ -723,6 +771,9 @@ def _sig(tr, l, clause, world, hidden=(), shape=None):
                                                            ':ro' if d.get('ro') else '')
     if req['act'] == 'activate' and not req['name'] and req['mod'] in tr[0]['desc']:
         target = dt = 'module'
+    after = 'requests'
+    if any(e['req']['act'] in ('poll', 'assign') and e['req']['mod'] == req['mod'] for e in tr[1:l - 1]):
+        after = 'poll/assign'          # the cache was touched from the driver side before
     if [req['mod'], req['name']] in list(hidden):
         target = 'cfg-hidden'
     if shape:        # generated node: the generator knows where the final accessible comes from
@@ -730,7 +781,7 @@ def _sig(tr, l, clause, world, hidden=(), shape=None):
         if t2.startswith('cfg-'):
             target = t2
     return {'module': 'Describe', 'clause': clause, 'act': req['act'], 'target': target, 'dt': dt,
-            'payload': dc.payload_class(req['payload'], ev['prev'], dt), 'obs': ev['cls'], 'world': world}
+            'payload': dc.payload_class(req['payload'], ev['prev'], dt), 'obs': ev['cls'], 'world': world, 'after': after}
 
 
 def run(chk):
